@@ -82,6 +82,16 @@ package store
 //@   modifies *
 //@   assert only_ready_files: at FileOp.DeleteFile#0 :: ready && !lowThresholdBreached
 
+// cleanup picks the pass: a normal pass (disk usage below the aggressive threshold) runs the
+// TTI/TTL sweep with the configured TTL and no lower usage threshold - so it removes every idle
+// or old unprotected file; only an aggressive pass uses the aggressive TTL and may stop at the
+// lower threshold; the usage-driven policy runs only in an aggressive pass.
+//@ func cleanupManager.cleanup
+//@   requires m != nil && m.clk != nil && op != nil
+//@   modifies *
+//@   assert normal_pass_sweeps_everything: at cleanupManager.ttlBasedCleanup#0 :: arg2 == config.TTI && (shouldAggro ==> ttl == config.AggressiveTTL && lowerThreshold == config.AggressiveLowerThreshold) && (!shouldAggro ==> ttl == config.TTL && lowerThreshold == 0)
+//@   assert policy_only_when_aggressive: at cleanupManager.customPolicyBasedCleanup#0 :: shouldAggro && config.AggressiveLowerThreshold != 0
+
 // customPolicyBasedCleanup: files are deleted in the order the policy sorted them, only while bytes
 // remain to be freed.
 //@ func cleanupManager.customPolicyBasedCleanup
